@@ -6,6 +6,7 @@ import TensoraVerif.Model.GraphWire
 import TensoraVerif.Model.ParserWire
 import TensoraVerif.Model.ApiWire
 import TensoraVerif.Model.CPrint
+import TensoraVerif.Model.Ownership
 import TensoraVerif.Lemmas.PeepholeExact
 open TV
 
@@ -143,6 +144,22 @@ def showFloat (reprs : List Sexp) (f : Float) : String :=
   | some (.list [_, .str t]) => t
   | _ => "?"
 
+def ownKind : Sexp → Option Own.OutKind
+  | .atom "sparse" => some .sparse
+  | .atom "dense" => some .dense
+  | .atom "scalar" => some .scalar
+  | _ => none
+
+def ownOp : Sexp → Option Own.Op
+  | .list [.atom "eval", x, k] => do pure (.eval (← x.toNat?) (← ownKind k))
+  | .list [.atom "alias", y, x] => do pure (.alias (← y.toNat?) (← x.toNat?))
+  | .list [.atom "read", x] => do pure (.read (← x.toNat?))
+  | .list [.atom "pickle", y, x] => do pure (.pickle (← y.toNat?) (← x.toNat?))
+  | .list [.atom "feed", y, x, k] => do pure (.feed (← y.toNat?) (← x.toNat?) (← ownKind k))
+  | .list [.atom "del", x] => do pure (.del (← x.toNat?))
+  | .list [.atom "gc"] => some .gc
+  | _ => none
+
 def handle (cmd : String) (args : List Sexp) : Sexp :=
   match cmd, args with
   | "PING", _ => .atom "pong"
@@ -191,6 +208,15 @@ def handle (cmd : String) (args : List Sexp) : Sexp :=
     match IR.Wire.moduleOf m with
     | some m => Sexp.ofBool (m.defs.all fun f => IR.hoistConsistent f.params f.body)
     | none => Sexp.mk "bad-request" [.str "unknown-constructor"]
+  | "OWN", [.list ops] =>
+    match ops.mapM ownOp with
+    | some ops =>
+      let (final, per) := ops.foldl (fun (acc : Own.St × List (List Nat)) op =>
+        let (s', freed) := Own.step acc.1 op
+        (s', acc.2 ++ [freed])) (Own.St.init, [])
+      Sexp.mk "ok" [.list (per.map Sexp.ofNats), Sexp.ofNats final.freed, Sexp.ofNat final.nextArr,
+        Sexp.ofNats (final.objs.flatMap (·.2))]
+    | none => Sexp.mk "bad-request" [.str "own-ops"]
   | "MAKEPROBLEM", [sg, fs] =>
     match Api.Wire.sigOf sg, Api.Wire.namedFmts fs with
     | some sg, some fs =>
